@@ -1,9 +1,12 @@
 package props
 
 import (
+	"context"
 	"fmt"
 	"strings"
+	"sync"
 	"testing"
+	"time"
 
 	"pgregory.net/rapid"
 	"verifharness/kit"
@@ -103,3 +106,133 @@ func TestC06Cancel(t *testing.T) {
 		return v
 	})
 }
+
+// ---- unary calls whose caller gives up --------------------------------------------------
+//
+// "A unary exchange is exactly one request and exactly one response" also when the caller's context ends while it
+// waits: goat conveys nothing about that to the server, and whatever it puts on the wire must still be that one request.
+
+type C06UCall struct {
+	How   string `json:"how"`   // cancel | deadline | none
+	Where string `json:"where"` // handler (the handler is still running) | reply (the reply's transport write is pending)
+}
+
+type C06Unary struct {
+	Calls []C06UCall `json:"calls"`
+	Ser   bool       `json:"ser"`
+}
+
+func genC06Unary(t *rapid.T) C06Unary {
+	c := C06Unary{Ser: rapid.Bool().Draw(t, "ser")}
+	n := rapid.IntRange(1, 6).Draw(t, "n")
+	for i := 0; i < n; i++ {
+		c.Calls = append(c.Calls, C06UCall{How: rapid.SampledFrom([]string{"cancel", "cancel", "deadline", "none"}).Draw(t, "how"), Where: rapid.SampledFrom([]string{"handler", "reply"}).Draw(t, "where")})
+	}
+	return c
+}
+
+func execC06Unary(t *testing.T, c C06Unary) (v Verdict) {
+	n := len(c.Calls)
+	var mu sync.Mutex
+	ran := make([]int, n)
+	returned := make([]bool, n)
+	var tap []kit.Ev
+	res := kit.Bubble(t, func() {
+		sched := kit.NewSched()
+		svc := kit.NewSvc()
+		for i := range c.Calls {
+			i := i
+			svc.Unary(fmt.Sprintf("m%d", i), func(ctx context.Context, req []byte) ([]byte, error) {
+				mu.Lock()
+				ran[i]++
+				mu.Unlock()
+				if c.Calls[i].Where == "handler" {
+					sched.Park(nil, fmt.Sprintf("h%d", i))
+				}
+				mu.Lock()
+				returned[i] = true
+				mu.Unlock()
+				return append([]byte("re:"), req...), nil
+			})
+		}
+		w := kit.NewWorld(kit.Topo{Kind: "direct", Serialize: c.Ser, Clients: 1}, svc, nil, nil)
+		l := w.Links[0]
+		l.B.Hold(func(r *kit.Rpc) bool { return true }) // every reply write waits for its release
+		cancels := make([]context.CancelFunc, n)
+		var wg sync.WaitGroup
+		for i := range c.Calls {
+			i := i
+			ctx, cancel := context.WithCancel(context.Background())
+			if c.Calls[i].How == "deadline" {
+				ctx, cancel = context.WithTimeout(context.Background(), 50*time.Millisecond)
+			}
+			cancels[i] = cancel
+			wg.Add(1)
+			go func() {
+				defer wg.Done()
+				_, _ = kit.Invoke(ctx, w.Conn(0), fmt.Sprintf("m%d", i), []byte{byte(i)})
+			}()
+		}
+		kit.Settle() // every request is with its handler, or its reply is waiting to be written
+		for i := range c.Calls {
+			if c.Calls[i].How == "cancel" {
+				cancels[i]()
+				kit.Settle()
+			}
+		}
+		time.Sleep(60 * time.Millisecond) // the deadlines pass
+		kit.Settle()
+		for i := range c.Calls {
+			sched.ReleaseGate(fmt.Sprintf("h%d", i))
+			kit.Settle()
+		}
+		l.ReleaseAll()
+		kit.Settle()
+		wg.Wait()
+		for _, cancel := range cancels {
+			cancel()
+		}
+		kit.Settle()
+		tap = w.Tap.Snapshot()
+		sched.Drain()
+		w.Shutdown()
+		kit.Settle()
+	})
+	if res.Panic != nil {
+		v.failf("panic: %v\n%s", res.Panic, res.Stack)
+	}
+	var facts []kit.StreamFacts
+	gaveUp := 0
+	for i := range c.Calls {
+		method := kit.FullMethod(fmt.Sprintf("m%d", i))
+		var id uint64
+		for _, e := range kit.Filter(tap, "c0", kit.AtoB) {
+			if e.Rpc.GetHeader().GetMethod() == method {
+				id = e.Rpc.GetId()
+				break
+			}
+		}
+		if id == 0 {
+			v.failf("m%d: the request never appeared on the wire", i)
+			continue
+		}
+		facts = append(facts, kit.StreamFacts{Conn: "c0", Client: "c0", Server: kit.ServerName, ID: id, Method: method, Unary: true, HandlerReturned: returned[i]})
+		if ran[i] != 1 {
+			v.failf("WIRE m%d: one unary request was written, its handler ran %d times", i, ran[i])
+		}
+		if c.Calls[i].How != "none" {
+			gaveUp++
+		}
+	}
+	viol, _, _ := kit.CheckWire(tap, facts)
+	for _, m := range viol {
+		v.failf("WIRE %s", m)
+	}
+	v.Info = kit.CaseInfo{Labels: []string{"family=unary-cancel", fmt.Sprintf("unary.gave_up=%v", gaveUp > 0)}, NonTrivial: gaveUp > 0, Key: fmt.Sprintf("%+v", c), Sample: map[string]any{"calls": c.Calls, "wire_head": tapSummary(tap, 8)}}
+	if v.Fail != "" {
+		v.Detail = map[string]any{"wire": tapSummary(tap, 60)}
+	}
+	return
+}
+
+func TestC06Unary(t *testing.T) { checkProp(t, "C06", "unary-cancel", genC06Unary, execC06Unary) }
